@@ -143,3 +143,16 @@ Definition dumps_ok_b (t : tree Z) (st : list nat) (seq : list nat) : bool :=
   | Node _ [(_, Leaf l _)] => negb (mem l seq) || mem l st
   | _ => true
   end.
+
+(* ---- plain pickling (C06): no object has an oid, every object is written once,
+   with the state __getstate__ returns at that moment ---- *)
+Section Pickle.
+Variable V : Type.
+Fixpoint subtrees (t : tree V) : list (tree V) :=
+  t :: match t with
+       | Leaf _ _ => []
+       | Node _ kids => flat_map (fun sc => subtrees (snd sc)) kids
+       end.
+Definition dump_all (stored : list nat) (t : tree V) : store V :=
+  map (fun n => (tid V n, getstate V stored t n)) (subtrees t).
+End Pickle.
